@@ -95,3 +95,16 @@ Theorem c12_opacity :
     snd (Model.render_taint strict (print_templates T) c (print t)) = [].
 Proof. exact opacity_proof. Qed.
 Print Assumptions c12_opacity.
+
+(* HISTORIES.  On one Ribosome instance the outcome (text, warnings, error - and the taint
+   outcome) of every call of a history is the outcome the same call has on a fresh instance:
+   a function of (registered templates, strict, context, template) only.  Whatever an earlier
+   call did - rendered, raised inside an include, bumped the counters - leaves no trace. *)
+Theorem c12_render_is_function_of_its_inputs :
+  forall T strict n cls,
+    Model.run_calls (Model.mkInstance T strict n) cls =
+    map (fun cl : Model.call =>
+           (render_impl strict (print_templates T) (snd cl) (print (fst cl)),
+            Model.render_taint strict (print_templates T) (snd cl) (print (fst cl)))) cls.
+Proof. exact history_independent_proof. Qed.
+Print Assumptions c12_render_is_function_of_its_inputs.
